@@ -11,7 +11,7 @@ from .. import smc_common as sc
 
 ID = "C08"
 LEVEL = "exploration"
-BUDGET = {"quick": 700, "thorough": 16000}
+BUDGET = {"quick": 700, "thorough": 45000}
 SHARDS = {"quick": 8, "thorough": 16}
 RULE = (
     "case = SMC run (table proposal/likelihood, frozen or random-walk kernel double, any schedule option, namespace, "
